@@ -32,6 +32,21 @@ out.append('Checks that missed a seeded change when it arrived, and what was str
            'same array objects are re-used and edited in place, as a user would); `C20-param-panel-drops-cycle-starting-on-window-start` '
            '(panels were only required to show cycles *strictly* inside the view — now every cycle lying entirely inside it, the same '
            'reading as the highlight clause); the C11 change was silent in C12 until C12 also varied `progress`.\n')
+out.append('### 5.1b Behaviour-preserving refactorings (false-alarm resistance)\n')
+out.append('Six further sub-agents were each given two to four property texts and a scratch worktree and asked for a *substantial '
+           'refactoring that keeps the properties true* (vectorising loops, restructuring branches, renaming and splitting helpers, '
+           'rebuilding tables differently), validated by their own differential script against the original functions. Kept under '
+           '`refactors/<id>/`. Every quick check was run on each refactored copy:\n')
+out.append('| refactoring | changed lines | alarms raised by the 20 quick checks |')
+out.append('|---|---|---|')
+for mf in sorted(glob.glob(os.path.join(HERE, 'refactors', '*', 'meta.json'))):
+    m = json.load(open(mf))
+    name = os.path.basename(os.path.dirname(mf))
+    notes = open(os.path.join(os.path.dirname(mf), 'notes.md')).read() if os.path.exists(os.path.join(os.path.dirname(mf), 'notes.md')) else ''
+    files = sorted(set(re.findall(r'bycycle/[a-z_/]+\.py', open(os.path.join(os.path.dirname(mf), 'patch.diff')).read())))
+    out.append('| `%s`: %s | %s | %s |' % (name, ', '.join(f.replace('bycycle/', '') for f in files), m.get('changed_lines'),
+                                         ', '.join(m.get('quick_checks_that_report_a_violation') or []) or 'none'))
+out.append('')
 bt = os.path.join(HERE, 'tools', 'break_tests_results.md')
 if os.path.exists(bt):
     lines = open(bt).read().strip().splitlines()
